@@ -310,14 +310,64 @@ def walk_body(fnode, enter_lambdas=True):
         stack.extend(reversed(list(ast.iter_child_nodes(n))))
 
 
+class _Canon(ast.NodeTransformer):
+    """Canonical form of two-operand comparisons, so that `b > a` and `a < b`, `x == 1` and
+    `1 == x` have one text: > and >= are mirrored to < and <=; for == / != a constant operand goes
+    to the right, otherwise the operands are ordered by their text."""
+
+    def visit_Compare(self, node):
+        self.generic_visit(node)
+        if len(node.ops) != 1:
+            return node
+        op, l, r = node.ops[0], node.left, node.comparators[0]
+        if isinstance(op, ast.Gt):
+            return ast.Compare(left=r, ops=[ast.Lt()], comparators=[l])
+        if isinstance(op, ast.GtE):
+            return ast.Compare(left=r, ops=[ast.LtE()], comparators=[l])
+        if isinstance(op, (ast.Eq, ast.NotEq)):
+            lc, rc = isinstance(l, ast.Constant), isinstance(r, ast.Constant)
+            swap = (lc and not rc) or (lc == rc and ast.unparse(r) < ast.unparse(l))
+            if swap:
+                return ast.Compare(left=r, ops=[op], comparators=[l])
+        return node
+
+
+def _needs_canon(node):
+    for x in ast.walk(node):
+        if isinstance(x, ast.Compare) and len(x.ops) == 1 and isinstance(x.ops[0], (ast.Gt, ast.GtE, ast.Eq, ast.NotEq)):
+            return True
+    return False
+
+
+_NORM_CACHE = {}
+
+
 def norm(node):
-    """Normalised text of a statement/expression (no positions)."""
+    """Normalised text of a statement/expression (no positions; comparisons in canonical form)."""
     if isinstance(node, str):
         return re.sub(r"\s+", " ", node).strip()
+    key = id(node)
+    hit = _NORM_CACHE.get(key)
+    if hit is not None and hit[0] is node:
+        return hit[1]
     try:
-        return ast.unparse(node)
+        if _needs_canon(node):
+            clone = ast.parse(ast.unparse(node))
+            clone = _Canon().visit(clone)
+            ast.fix_missing_locations(clone)
+            text = ast.unparse(clone)
+        else:
+            text = ast.unparse(node)
     except Exception:
-        return ast.dump(node)
+        text = ast.dump(node)
+    if len(_NORM_CACHE) < 200000:
+        _NORM_CACHE[key] = (node, text)
+    return text
+
+
+def N(text):
+    """Canonical text of an expression given as source text (use for expected values in rules)."""
+    return norm(ast.parse(text, mode="eval").body)
 
 
 def head(node, n=110):
